@@ -48,6 +48,9 @@ impl Stats {
         *self.faults.entry(k.to_string()).or_default() += 1;
     }
     pub fn probe(&mut self, k: &str) {
+        if k.starts_with("model.") && std::env::var_os("VERIF_TRACE_MODEL").is_some() {
+            eprintln!("    probe {k}");
+        }
         *self.probes.entry(k.to_string()).or_default() += 1;
     }
     pub fn probe_n(&mut self, k: &str, n: u64) {
